@@ -554,7 +554,10 @@ func genWire(r *c.Rng, k *Case) {
 		t := genToken(r)
 		w.AT, w.PF = map[string]string{"chal": t}, map[string]string{"chal": t}
 	case "pf-chal-prefix-both": // a prefix of this challenge's token, consistently in both tokens
-		t := k.Token[:len(k.Token)-1]
+		t := "x"
+		if len(k.Token) > 1 {
+			t = k.Token[:len(k.Token)-1]
+		}
 		w.AT, w.PF = map[string]string{"chal": t}, map[string]string{"chal": t}
 	case "at-cnf-prefix":
 		w.AT = map[string]string{"cnf": signerKid(w, 1)}
